@@ -170,6 +170,30 @@ def content_scripts(tier, rng, tid0):
         ops.append({"o": "load", "w": 1, "blob": 0})
         scripts.append({"tid": tid, "marker": "simple", "worlds": 2, "ops": ops})
         tid += 1
+    # retrieve_entity called directly, with stale allocator mappings: marked entities are deleted (the world
+    # is maintained, the allocator only sometimes), then every id is retrieved - a new entity each for the
+    # ids whose carrier died, the carrier itself for the others - and once more (now all are carriers)
+    for gi in range(40 if tier == "quick" else 400):
+        k = rng.randint(1, 5)
+        ops = [{"o": "create", "w": 0, "a": 30 + i, "b": None} for i in range(k)]
+        ops += [{"o": "mark", "w": 0, "h": i} for i in range(k)]
+        victims = rng.sample(range(k), rng.randint(1, k))
+        for v in victims:
+            ops.append({"o": rng.choice(["delete", "edelete"]), "w": 0, "h": v})
+        ops.append({"o": "maintain", "w": 0})
+        if gi % 3 == 2:
+            ops.append({"o": "amaintain", "w": 0})
+        if gi % 4 == 1:
+            # the indices of the dead are taken by new (unmarked) entities
+            ops += [{"o": "create", "w": 0, "a": 70 + i, "b": None} for i in range(len(victims))]
+        ids = list(range(k + 1))
+        rng.shuffle(ids)
+        ops += [{"o": "retrieve", "w": 0, "m": m} for m in ids]
+        ops += [{"o": "retrieve", "w": 0, "m": m} for m in ids[:2]]
+        ops.append({"o": "save", "w": 0, "rec": False, "fmt": "json"})
+        ops.append({"o": "load", "w": 1, "blob": 0})
+        scripts.append({"tid": tid, "marker": "simple", "worlds": 2, "ops": ops})
+        tid += 1
     return scripts
 
 
@@ -215,6 +239,10 @@ def random_scripts(tier, rng, tid0, n):
                 ops.append({"o": "maintain", "w": w})
             elif x < 0.69:
                 ops.append({"o": "amaintain", "w": w})
+            elif x < 0.73:
+                # the creation path of deserialisation called directly: the carrier of the id, or a new entity
+                ops.append({"o": "retrieve", "w": w, "m": rng.randrange(8)})
+                nh[w] += 1
             elif x < 0.80:
                 ops.append({"o": "save", "w": w, "rec": True, "fmt": rng.choice(["json", "ron"])})
                 nblobs += 1
@@ -238,19 +266,20 @@ def random_scripts(tier, rng, tid0, n):
     return scripts
 
 
-def mmc_cfg(maxidx, maxops, maxid, emit=True):
+def mmc_cfg(maxidx, maxops, maxid, emit=True, retrmax=None):
     return """SPECIFICATION MCSpec
 CONSTANTS
   MaxIdx = %d
   MaxOps = %d
   MaxId = %d
+  RetrMax = %d
   Emit = %s
 CONSTRAINT Bound
 VIEW View
 INVARIANT NoViol
 INVARIANT StructInv
 CHECK_DEADLOCK FALSE
-""" % (maxidx, maxops, maxid, "TRUE" if emit else "FALSE")
+""" % (maxidx, maxops, maxid, maxid if retrmax is None else retrmax, "TRUE" if emit else "FALSE")
 
 
 def opt(v):
@@ -272,6 +301,8 @@ def conv_marker_script(hist, tid):
             ops.append({"o": "set", "w": 0, "h": o["k"] - 1, "c": "r", "v": [x - 1 for x in o["vk"]] if o["v"] else None})
         elif k == "amaintain":
             ops.append({"o": "amaintain", "w": 0})
+        elif k == "retrieve":
+            ops.append({"o": "retrieve", "w": 0, "m": o["m"]})
         elif k == "save":
             ops.append({"o": "save", "w": 0, "rec": False, "fmt": ["json", "ron"][tid % 2]})
             nsaves += 1
@@ -307,7 +338,7 @@ def traces(prop, tier, seed):
         return [hit]
     rng = random.Random(seed * 271 + 11)
     from . import worldgen as G
-    st, tl = C.model_check("Marker_MC.tla", mmc_cfg(2, 5, 2) if tier == "quick" else mmc_cfg(3, 6, 2), "marker_" + tier, workers=8)
+    st, tl = C.model_check("Marker_MC.tla", mmc_cfg(2, 5, 2) if tier == "quick" else mmc_cfg(3, 6, 2, retrmax=0), "marker_" + tier, workers=8)
     mscripts = [conv_marker_script(h, 73000000 + i) for i, h in enumerate(G.dedupe_prefixes(tl))]
     scripts = (content_scripts(tier, rng, 71000000) + random_scripts(tier, rng, 72000000, 250 if tier == "quick" else 4000)
                + mscripts)
